@@ -25,6 +25,7 @@ Abstract values are hashable tuples:
 Locations: ('L', frame, local, proj)  |  ('H', pointer_value, proj)  |  ('T', id, proj)
 """
 import itertools
+import re
 
 from .facts import AnalysisError
 
@@ -260,6 +261,7 @@ class Interp:
         self.models = models or Models()
         self.paths = None
         self.aborted = []
+        self.blind = []         # (callee, function, closure defs, line): closures handed to unmodelled functions
         self.steps = 0
         self.truncated = False
 
@@ -641,6 +643,21 @@ class Interp:
                     self.event(s2, fr, {"ev": "branch", "cond": c, "variant": n, "ln": t.get("ln"), "bb": bb})
                     outs.append((s2, t["otherwise"]))
             return outs
+        if t.get("ty") in INT_TYS:
+            # `match n { 0 => .., 1 => .., _ => .. }` on an integer: the same facts as the chain of `n == k` tests it abbreviates
+            inf = {"ln": t.get("ln"), "bb": bb, "q": "<match>"}
+            for v, tb in zip(vals, ts):
+                s2 = self.models.assume(self, st, fr, ("bin", "Eq", c, ("const", t["ty"], str(v))), True, inf)
+                if s2 is not None:
+                    outs.append((s2, tb))
+            s2 = st
+            for v in vals:
+                s2 = self.models.assume(self, s2, fr, ("bin", "Eq", c, ("const", t["ty"], str(v))), False, inf)
+                if s2 is None:
+                    break
+            if s2 is not None:
+                outs.append((s2, t["otherwise"]))
+            return outs
         # boolean / integer condition on an opaque value
         known = None
         for f in st.facts:
@@ -722,6 +739,11 @@ class Interp:
         cid = st.fresh()
         ev = {"ev": "call", "q": q, "args": args, "id": cid, "ln": t["ln"], "bb": bb, "unwind": t["u"], "f": f,
               "local": body is not None, "def": cdef, "dty": t["dty"], "exp": t.get("exp", False)}
+        clos = [t_[2] for a in args if isinstance(a, tuple) for t_ in subterms(a) if t_[0] == "agg" and t_[1] == "closure"]
+        if clos:
+            # a closure of this crate handed to a function the interpreter has no model for: its body is not on any path
+            ev["blind_closure"] = clos
+            self.blind.append((q, fr.fpath, tuple(clos), t["ln"]))
         self.event(st, fr, ev)
         self.models.opaque_effects(self, st, fr, info, ev)
         yield (st, ("call", cid, q))
@@ -869,6 +891,7 @@ class Models:
         t["core::ptr::null_mut"] = self.null
         t["core::ptr::null"] = self.null
         t["core::cmp::Ord::max"] = None
+        t["core::array::from_fn"] = self.array_from_fn
         t["core::bool::<impl bool>::then"] = self.bool_then
         t["bool::then"] = self.bool_then
         for q in ("<I as core::iter::Iterator>::for_each", "core::iter::Iterator::for_each"):
@@ -1602,6 +1625,21 @@ class Models:
                                               "bb": info["bb"], "unwind": info["unwind"], "moved": False, "implicit": "filter rejected"})
                         yield (s4, NONE)
 
+    def array_from_fn(self, interp, st, fr, info):
+        """[T; N] built by calling the closure for every index: the closure body is entered once with a symbolic index and its
+        result stands for every element (N from the result type)"""
+        m = re.search(r";\s*(\d+)\]\s*$", info["dty"] or "")
+        if not m or int(m.group(1)) > 64:
+            return None
+        n = int(m.group(1))
+        f = info["args"][0]
+        cid = st.fresh()
+        idx = ("iter_item", cid, ("agg", "adt", ("core::ops::Range", None), (("const", "usize", "0"), ("const", "usize", str(n))), ("start", "end")))
+        outs = []
+        for s2, rv in interp.call_closure(st, fr, f, [idx], info):
+            outs.append((s2, ("agg", "array", None, tuple(rv for _ in range(n)), tuple(str(i) for i in range(n)))))
+        return outs
+
     def bool_then(self, interp, st, fr, info):
         b, f = info["args"]
         for s2, truth in self._fork_bool(interp, st, fr, b, info):
@@ -1640,8 +1678,59 @@ class Models:
         return [(st, ("agg", "adt", ("core::result::Result", "Err"), (("proj", r, (("dc", "Err"), "0")),), ("0",)))]
 
     # ---- iterators with closures: one symbolic iteration (loop summarised)
+    def _local_next(self, interp, ty):
+        """body of `<ty as Iterator>::next` when ty is an iterator type of this crate"""
+        m = re.match(r"[&\s]*(?:mut\s+)?([\w:]+)", ty or "")
+        if not m:
+            return None
+        head = m.group(1)
+        for im in interp.facts.doc["impls"]:
+            if im.get("trait") == "core::iter::Iterator" and im.get("self_head") == head:
+                for it in im["items"]:
+                    fn = interp.facts.fns.get(it)
+                    if fn and fn["name"] == "next":
+                        return interp.facts.body(it)
+        return None
+
+    def _items(self, interp, st, fr, it, info, kind):
+        """one symbolic step of an iteration: yields (state, item) for 'an item is produced' and (state, None) for 'exhausted'.
+        Iterators of this crate are stepped through their own `next`; foreign ones yield an opaque item."""
+        cid = st.fresh()
+        interp.event(st, fr, {"ev": "loop", "kind": kind, "iter": it, "id": cid, "ln": info["ln"], "bb": info["bb"], "unwind": info["unwind"],
+                              "iter_ty": info["arg_tys"][0]})
+        body = self._local_next(interp, info["arg_tys"][0])
+        if body is None:
+            s0 = st.fork()
+            interp.event(s0, fr, {"ev": "loop_end", "id": cid, "iters": 0})
+            yield (s0, None, cid)
+            yield (st, ("iter_item", cid, it), cid)
+            return
+        if isinstance(it, tuple) and it[0] == "ref":
+            recv = it
+        else:
+            tl = ("T", st.fresh(), ())
+            st.store[tl] = it
+            recv = ("ref", tl)
+        inf = dict(info, q=interp.facts.fns[body["path"]]["q"] if body["path"] in interp.facts.fns else "next")
+        for s2, rv in interp.inline_call(st, fr, body, [recv], inf):
+            for s3, k in self._fork_variant(interp, s2, fr, rv, ("Some", "None"), info):
+                if k == "None":
+                    interp.event(s3, fr, {"ev": "loop_end", "id": cid, "iters": 0})
+                    yield (s3, None, cid)
+                else:
+                    yield (s3, payload(interp, s3, rv, "Some"), cid)
+
     def iter_for_each(self, interp, st, fr, info):
         it, f = info["args"]
+        if self._local_next(interp, info["arg_tys"][0]) is not None:
+            for s2, item, cid in self._items(interp, st, fr, it, info, "for_each"):
+                if item is None:
+                    yield (s2, ("unit",))
+                    continue
+                for s3, rv in interp.call_closure(s2, fr, f, self._closure_args(interp, f, item), info):
+                    interp.event(s3, fr, {"ev": "loop_end", "id": cid, "iters": 1})
+                    yield (s3, ("unit",))
+            return
         cid = st.fresh()
         item = ("iter_item", cid, it)
         interp.event(st, fr, {"ev": "loop", "kind": "for_each", "iter": it, "id": cid, "ln": info["ln"], "bb": info["bb"], "unwind": info["unwind"],
